@@ -31,14 +31,6 @@ Fixpoint count_byte (c : N) (s : str) : nat :=
   | x :: r => if x =? c then S (count_byte c r) else count_byte c r
   end.
 
-(* the three bytes of U+FFFD, and "the prefix contains U+FFFD" *)
-Definition fffd : str := [239; 191; 189].
-Fixpoint has_fffd (p : str) : bool :=
-  match p with
-  | [] => false
-  | _ :: p1 => prefixb fffd p || has_fffd p1
-  end.
-
 (* ---- registrations ---------------------------------------------------- *)
 
 (* the keys a registration claims: the lower-cased name, then the lower-cased aliases;
